@@ -64,8 +64,17 @@ func signedAt(ts uint64, seq byte) []byte {
 	return signedAtID(ts, seq, 70001)
 }
 
+// historySeq[i], when set, is the sequence number the i-th frame of a history carries (the position still decides
+// link id and content): the window is about timestamps; sequence numbers that restart, repeat or stand still (a
+// second signer behind the link, a sender that never counts) are none of its business.
+var historySeq = map[int]byte{}
+
 func signedAtID(ts uint64, seq byte, id uint32) []byte {
-	f := ref.Frame{V2: true, Incompat: 1, Seq: seq, Sys: 9, Comp: 8, ID: id, Payload: []byte{seq, 1}, Checksum: 0x1234, LinkID: linkOf(seq), Timestamp: ts}
+	wireSeq := seq
+	if s, ok := historySeq[int(seq)]; ok {
+		wireSeq = s
+	}
+	f := ref.Frame{V2: true, Incompat: 1, Seq: wireSeq, Sys: 9, Comp: 8, ID: id, Payload: []byte{seq, 1}, Checksum: 0x1234, LinkID: linkOf(seq), Timestamp: ts}
 	f.Sig = f.SignatureFor(c07Key)
 	return f.Bytes()
 }
@@ -81,6 +90,15 @@ func signedKnownAt(di *dialectInfo, ts uint64, seq byte) []byte {
 // historyFrameKinds[i] refines known[i] for runHistoryDialect: 0/1 heartbeat, 2 known message with a checksum for
 // another definition, 3 SETUP_SIGNING.
 var historyFrameKinds = map[int]int{}
+
+// signedKnownUntruncatedAt is a correctly signed HEARTBEAT whose sender did not strip the trailing zero byte (legal): the
+// dialect reader hands it on in canonical form, and judges its signature by the bytes that arrived.
+func signedKnownUntruncatedAt(di *dialectInfo, ts uint64, seq byte) []byte {
+	f := ref.Frame{V2: true, Incompat: 1, Seq: seq, Sys: 9, Comp: 8, ID: 0, Payload: []byte{1, 2, 3, 4, 5, 6, 7, 8, 0}, LinkID: linkOf(seq), Timestamp: ts}
+	f.Checksum = f.ChecksumFor(di.layouts[0].CRCExtra)
+	f.Sig = f.SignatureFor(c07Key)
+	return f.Bytes()
+}
 
 func signedKnownWrongChecksumAt(di *dialectInfo, ts uint64, seq byte) []byte {
 	f := ref.Frame{V2: true, Incompat: 1, Seq: seq, Sys: 9, Comp: 8, ID: 0, Payload: []byte{1, 2, 3, 4, 5, 6, 7, 8, 9}, LinkID: linkOf(seq), Timestamp: ts}
@@ -143,6 +161,8 @@ func runHistoryDialect(hist []uint64, di *dialectInfo, known []bool) (string, er
 					b = signedKnownWrongChecksumAt(di, ts, byte(i))
 					refusedForChecksum[i] = true
 				}
+			case 4:
+				b = signedKnownUntruncatedAt(di, ts, byte(i))
 			case 3:
 				// SETUP_SIGNING passing by: its payload names a key and a timestamp of its own, which are the
 				// application's to act on; the link's window follows the frames' signature timestamps
@@ -349,7 +369,13 @@ func TestC07WindowRandom(t *testing.T) {
 		// the messages the frames carry: one id of the common dialect (or any other id) per case, carried by about
 		// half of the frames, the rest carry an id no dialect has
 		historyRawID = map[int]uint32{}
-		defer func() { historyRawID = map[int]uint32{} }()
+		historySeq = map[int]byte{}
+		defer func() { historyRawID = map[int]uint32{}; historySeq = map[int]byte{} }()
+		if rapid.Bool().Draw(t, "sequence_numbers_of_their_own") {
+			for i := 0; i < n; i++ {
+				historySeq[i] = byte(rapid.SampledFrom([]int{0, 0, 1, 7, 254, 255, i, i + 100}).Draw(t, "wire_seq"))
+			}
+		}
 		caseID := common.ids[rapid.IntRange(0, len(common.ids)-1).Draw(t, "message_id_of_the_case")]
 		if rapid.IntRange(0, 9).Draw(t, "any_id") == 0 {
 			caseID = uint32(rapid.IntRange(0, 1<<24-1).Draw(t, "message_id_any"))
@@ -518,7 +544,7 @@ func TestC07WindowRandom(t *testing.T) {
 			special := false
 			for i := range hist {
 				if known[i] {
-					historyFrameKinds[i] = rapid.SampledFrom([]int{1, 1, 1, 2, 2, 3}).Draw(t, "frame_kind")
+					historyFrameKinds[i] = rapid.SampledFrom([]int{1, 1, 1, 2, 2, 3, 4, 4}).Draw(t, "frame_kind")
 					special = special || historyFrameKinds[i] >= 2
 				}
 			}
